@@ -222,6 +222,8 @@ pub struct HistoryStats {
     pub seeks_to_reported: u64,
     pub seeks_u: u64,
     pub bytes_checked: u64,
+    /// highest flat offset up to which data was delivered (exclusive)
+    pub max_offset_read: u64,
 }
 
 pub type HResult = Result<HistoryStats, (String, String, String)>; // (class, witness, message)
@@ -237,8 +239,33 @@ pub fn run_reader_history(
     flat: &Flat,
     index: &gzi::Index,
     ops: &[ROp],
-    mut reported: Vec<u64>,
+    reported: Vec<u64>,
 ) -> HResult {
+    run_reader_history_with(r, flat, index, ops, reported, None)
+}
+
+/// `forbidden`: flat range [lo, hi) whose bytes must never be delivered (a corrupt or unreadable
+/// block; C03 fault scenarios).
+pub fn run_reader_history_with(
+    r: &mut dyn BgzfUnderTest,
+    flat: &Flat,
+    index: &gzi::Index,
+    ops: &[ROp],
+    mut reported: Vec<u64>,
+    forbidden: Option<(u64, u64)>,
+) -> HResult {
+    let check_forbidden = |lo: u64, hi: u64, i: usize, what: &str| -> Result<(), (String, String, String)> {
+        if let Some((flo, fhi)) = forbidden {
+            if lo < fhi && flo < hi && hi > lo {
+                return Err(fail(
+                    "fabricated-data",
+                    "corrupt-block-delivered",
+                    format!("op {i}: {what} delivered flat range [{lo}, {hi}) which overlaps the corrupt/unreadable range [{flo}, {fhi})"),
+                ));
+            }
+        }
+        Ok(())
+    };
     let mut st = HistoryStats::default();
     let data = &flat.data;
     let len = flat.len();
@@ -276,9 +303,11 @@ pub fn run_reader_history(
                         format!("op {i}: read({n}) returned 0 at offset {cur} of {len}"),
                     ));
                 }
+                check_forbidden(cur, cur + k as u64, i, "read")?;
                 cmp_bytes(&buf[..k], data, cur, i, "read")?;
                 cur += k as u64;
                 st.bytes_checked += k as u64;
+                st.max_offset_read = st.max_offset_read.max(cur);
                 if direct {
                     st.direct_reads += 1;
                     if just_sought {
@@ -299,9 +328,11 @@ pub fn run_reader_history(
                                 format!("op {i}: read_exact({n}) succeeded at offset {cur} of {len}"),
                             ));
                         }
+                        check_forbidden(cur, cur + *n as u64, i, "read_exact")?;
                         cmp_bytes(&buf, data, cur, i, "read_exact")?;
                         cur += *n as u64;
                         st.bytes_checked += *n as u64;
+                        st.max_offset_read = st.max_offset_read.max(cur);
                         st.read_exact_fast += 1;
                     }
                     Err(e) => {
@@ -345,8 +376,10 @@ pub fn run_reader_history(
                     ));
                 }
                 let w = w.to_vec();
+                check_forbidden(cur, cur + wl as u64, i, "fill_buf")?;
                 cmp_bytes(&w, data, cur, i, "fill_buf")?;
                 st.bytes_checked += wl as u64;
+                st.max_offset_read = st.max_offset_read.max(cur + wl as u64);
                 win_next = Some(wl);
             }
             ROp::Consume { n } => {
